@@ -114,48 +114,82 @@ def expected_tracts(groups):
     return out
 
 
+class _Builder:
+    """Accumulates text and the spans of its structural parts."""
+
+    def __init__(self):
+        self.parts = []
+        self.pos = 0
+        self.spans = []      # (start, end, kind)
+
+    def add(self, text, kind=None):
+        if kind is not None and text:
+            self.spans.append((self.pos, self.pos + len(text), kind))
+        self.parts.append(text)
+        self.pos += len(text)
+
+    def text(self):
+        return ''.join(self.parts)
+
+
 def render(rng, groups, layout, choices=None):
     """
     Render in ``layout`` using only documented connectors. Returns
     (text, info) where info records the rendering choices (for the shape
-    histogram and for classifiers).
+    histogram and for classifiers) and ``info['spans']``: the (start, end,
+    kind) spans of every Twp/Rge ('twprge'), section group ('sec') and
+    description block ('block') in the text.
     """
     ch = dict(choices or {})
     sep = ch.setdefault('sep', rng.choice([', ', '; ', '\n', ',\n', ';\n']))
     gsep = ch.setdefault('gsep', rng.choice([sep, '\n', '\n\n', '; ']))
     spelling = ch.setdefault('spelling', rng.choice(TWPRGE_SPELLINGS))
     mixed = ch.setdefault('mixed_spelling', rng.random() < 0.3)
-    parts = []
-    for tr, secs in groups:
+    b = _Builder()
+    for gi, (tr, secs) in enumerate(groups):
+        if gi:
+            b.add(gsep)
         sp = rng.choice(TWPRGE_SPELLINGS) if mixed else spelling
         trtxt = render_twprge(tr, sp)
+
+        def entries(sec_first):
+            for si, (n, k, blk, _) in enumerate(secs):
+                if si:
+                    b.add(sep)
+                if sec_first:
+                    b.add(render_sec_group(rng, n, k), 'sec')
+                    b.add(': ')
+                    b.add(blk, 'block')
+                else:
+                    b.add(blk, 'block')
+                    b.add(' of ')
+                    b.add(render_sec_group(rng, n, k), 'sec')
+
         if layout == 'TRS_desc':
-            joiner = rng.choice([' ', ', ', '\n', ': '])
-            body = sep.join(
-                f"{render_sec_group(rng, n, k)}: {b}" for n, k, b, _ in secs)
-            s = trtxt + joiner + body
+            b.add(trtxt, 'twprge')
+            b.add(rng.choice([' ', ', ', '\n', ': ']))
+            entries(True)
         elif layout == 'TR_desc_S':
-            joiner = rng.choice(['\n', ': ', ' ', ', '])
-            body = sep.join(
-                f"{b} of {render_sec_group(rng, n, k)}" for n, k, b, _ in secs)
-            s = trtxt + joiner + body
+            b.add(trtxt, 'twprge')
+            b.add(rng.choice(['\n', ': ', ' ', ', ']))
+            entries(False)
         elif layout == 'desc_STR':
-            body = sep.join(
-                f"{b} of {render_sec_group(rng, n, k)}" for n, k, b, _ in secs)
-            s = body + ', ' + trtxt
+            entries(False)
+            b.add(', ')
+            b.add(trtxt, 'twprge')
         elif layout == 'S_desc_TR':
             conn = rng.choice([', ', ' of '])
             if secs[-1][2] == 'ALL':
                 # 'ALL of T...' is the documented context phrase "all of
                 # <Twp/Rge>", read as a continuation -- excluded.
                 conn = ', '
-            body = sep.join(
-                f"{render_sec_group(rng, n, k)}: {b}" for n, k, b, _ in secs)
-            s = body + conn + trtxt
+            entries(True)
+            b.add(conn)
+            b.add(trtxt, 'twprge')
         else:
             raise ValueError(layout)
-        parts.append(s)
-    return gsep.join(parts), ch
+    ch['spans'] = b.spans
+    return b.text(), ch
 
 
 def gen_case(rng, layout=None, **kw):
@@ -175,4 +209,5 @@ def gen_case(rng, layout=None, **kw):
         'sep': ch['sep'], 'gsep': ch['gsep'],
         'spelling': 'mixed' if ch['mixed_spelling'] else ch['spelling'],
     }
-    return {'text': text, 'layout': layout, 'expected': exp, 'shape': shape}
+    return {'text': text, 'layout': layout, 'expected': exp, 'shape': shape,
+            'spans': [list(x) for x in ch['spans']]}
